@@ -19,7 +19,8 @@ CONSTANTS
   MaxWeak,    \* bound on weak targets per holder
   Kinds,      \* subset of {"N","S","L","O"}: RefLock node, static (non-tracing) leaf, Lock cell, OnceLock cell
   Budgets,    \* set of positive budgets for debt-driven calls
-  Grans       \* subset of {"P1","P2"}: which events earn credit (see Spend)
+  Grans,      \* subset of {"P1","P2"}: which events earn credit (see Spend)
+  MaxHandles  \* number of DynamicRoot handles that can exist at once (0: no dynamic roots)
 
 Range(f) == {f[i] : i \in DOMAIN f}
 SeqRemove(q, x) == SelectSeq(q, LAMBDA y : y # x)
@@ -69,7 +70,8 @@ RemovePaths(k) ==
     [] OTHER   -> {}
 \* barrier calls that are followed by no adoption (also legal on objects that need no tracing)
 BarrierPaths(k) ==
-  CASE k = "N" -> {"borrow_mut", "try_borrow_mut", "write_unlock", "gc_unlock", "back_none", "back_some",
+  CASE k = "D" -> {}
+    [] k = "N" -> {"borrow_mut", "try_borrow_mut", "write_unlock", "gc_unlock", "back_none", "back_some",
                    "fwd_some", "fwd_none", "back_weak", "fwd_weak_some", "fwd_weak_none"}
     [] k = "S" -> {"borrow_mut", "write_unlock", "back_none", "back_some", "back_weak", "fwd_some", "fwd_weak_some"}
     [] k = "F" -> {"field_unlock", "back_none", "fwd_some"}
@@ -91,6 +93,8 @@ PathClass(path) ==
 (***************************************************************************)
 (* The heap record.                                                        *)
 (***************************************************************************)
+NoHandle == [set |-> NoObj, gen |-> 0, idx |-> 0, obj |-> NoObj]
+
 EmptyHeap ==
   [ alive     |-> [o \in Obj |-> FALSE],   \* block allocated and linked   (membership in Context.all)
     live      |-> [o \in Obj |-> FALSE],   \* value not yet destructed     (GcHeader::is_live)
@@ -100,6 +104,15 @@ EmptyHeap ==
     weak      |-> [o \in Obj |-> {}],      \* weak targets held in the value
     rootS     |-> <<>>,                    \* strong pointers held by the root
     rootW     |-> {},                      \* weak pointers held by the root
+    rootD     |-> <<>>,                    \* DynamicRootSets held by the root (objects of kind "D")
+    \* src/dynamic_roots.rs: per set object the slot table, the head of its free list (0 = none),
+    \* and a generation that tells this set from a later object with the same identifier
+    slots     |-> [o \in Obj |-> <<>>],
+    freeHead  |-> [o \in Obj |-> 0],
+    gen       |-> [o \in Obj |-> 0],
+    nextGen   |-> 1,
+    \* the world outside the arena: DynamicRoot handles [set, gen, idx, obj]; they survive the arena
+    handles   |-> [i \in 1..MaxHandles |-> NoHandle],
     head      |-> NoObj,                   \* Context.all
     next      |-> [o \in Obj |-> NoObj],   \* GcHeader::next
     sweep     |-> NoObj,                   \* Context.sweep
@@ -160,7 +173,7 @@ Close(s, S, n) ==
        IN IF S2 = S THEN S ELSE Close(s, S2, n - 1)
 
 \* strongly reachable from the root
-Reach(s) == Close(s, Range(s.rootS), Cardinality(Obj))
+Reach(s) == Close(s, Range(s.rootS) \cup Range(s.rootD), Cardinality(Obj))
 ReachFrom(s, S) == Close(s, S, Cardinality(Obj))
 
 \* Context::upgrade
@@ -174,14 +187,16 @@ AccClose(s, S, n) ==
   ELSE LET S2 == S \cup UNION {Kids(s, o) : o \in S}
                     \cup {t \in UNION {s.weak[o] : o \in S} : CanUpgrade(s, t)}
        IN IF S2 = S THEN S ELSE AccClose(s, S2, n - 1)
-Acc(s) == AccClose(s, Range(s.rootS) \cup {t \in s.rootW : CanUpgrade(s, t)}, Cardinality(Obj))
+Acc(s) == AccClose(s, Range(s.rootS) \cup Range(s.rootD) \cup {t \in s.rootW : CanUpgrade(s, t)}, Cardinality(Obj))
+\* ... of which the harness can hold a typed pointer (a DynamicRootSet is not a Gc a client can name)
+Ordinary(s) == {o \in Acc(s) : s.kind[o] # "D"}
 
 \* weak pointers a callback can look at (holder is accessible or the root)
 WeakEdges(s) == {<<"root", t>> : t \in s.rootW} \cup {<<o, t>> \in Obj \X Obj : o \in Acc(s) /\ t \in s.weak[o]}
 WeakTargetsOfReachable(s) == s.rootW \cup UNION {s.weak[o] : o \in Reach(s)}
 
 \* an identifier may be (re)used only if no existing object or root still mentions it
-Stale(s, o) == \/ o \in Range(s.rootS) \/ o \in s.rootW
+Stale(s, o) == \/ o \in Range(s.rootS) \/ o \in s.rootW \/ o \in Range(s.rootD)
                \/ \E p \in Obj : s.alive[p] /\ (o \in Kids(s, p) \/ o \in s.weak[p])
 FreeIds(s) == {o \in Obj : ~s.alive[o] /\ ~Stale(s, o)}
 
@@ -260,7 +275,7 @@ TraceObj(s, o) ==
   TrWeakSet(TrSeq([s |-> [s EXCEPT !.color[o] = "B", !.mt.traced = @ + 1], m |-> 0], s.strong[o]), s.weak[o])
 
 \* the root's Collect::trace
-TraceRoot(s) == TrWeakSet(TrSeq([s |-> s, m |-> 0], s.rootS), s.rootW)
+TraceRoot(s) == TrWeakSet(TrSeq([s |-> s, m |-> 0], s.rootS \o s.rootD), s.rootW)
 
 \* Fault injection (C11): a Collect::trace implementation that unwinds after having reported
 \* `pos` of the strong pointers it holds (AllPos: after every strong and weak pointer).
@@ -270,10 +285,10 @@ PartialTraceObj(s, o, pos) ==
   LET st == TrSeq([s |-> [s EXCEPT !.color[o] = "B", !.mt.traced = @ + 1], m |-> 0], Prefix(s.strong[o], pos))
   IN IF pos = AllPos THEN TrWeakSet(st, s.weak[o]) ELSE st
 PartialTraceRoot(s, pos) ==
-  LET st == TrSeq([s |-> s, m |-> 0], Prefix(s.rootS, pos))
+  LET st == TrSeq([s |-> s, m |-> 0], Prefix(s.rootS \o s.rootD, pos))
   IN IF pos = AllPos THEN TrWeakSet(st, s.rootW) ELSE st
 \* does marking this object call into a user Collect::trace at all?
-Ticks(s, o) == s.kind[o] # "S" /\ ~(s.kind[o] = "O" /\ s.strong[o] = <<>>)
+Ticks(s, o) == s.kind[o] \notin {"S", "D"} /\ ~(s.kind[o] = "O" /\ s.strong[o] = <<>>)
 NoFaultRec == [at |-> -1, pos |-> 0]
 
 \* Context::sweep_one with sweep # None.  Returns [s, earn] with earn in {"free", "keep"}.
@@ -285,12 +300,12 @@ SweepOne(s) ==
          LET s2 == IF s.sweepPrev # NoObj THEN [s1 EXCEPT !.next[s.sweepPrev] = nx]
                                           ELSE [s1 EXCEPT !.head = nx, !.fault = @ \/ s.head # o]
          IN [s |-> [s2 EXCEPT !.alive[o] = FALSE, !.live[o] = FALSE, !.strong[o] = <<>>, !.weak[o] = {},
-                              !.next[o] = NoObj, !.kind[o] = "N",
+                              !.next[o] = NoObj, !.kind[o] = "N", !.slots[o] = <<>>, !.freeHead[o] = 0,
                               !.mt.dropped = IF s.live[o] THEN @ + 1 ELSE @, !.mt.freed = @ + 1],
              earn |-> "free"]
     [] s.color[o] = "WW" ->
          [s |-> [s1 EXCEPT !.sweepPrev = o, !.color[o] = "W", !.live[o] = FALSE,
-                           !.strong[o] = <<>>, !.weak[o] = {},
+                           !.strong[o] = <<>>, !.weak[o] = {}, !.slots[o] = <<>>, !.freeHead[o] = 0,
                            !.mt.dropped = IF s.live[o] THEN @ + 1 ELSE @, !.mt.remembered = @ + 1],
           earn |-> "keep"]
     [] s.color[o] = "B" ->
@@ -308,7 +323,8 @@ DropAll(s) ==
             !.alive = [o \in Obj |-> FALSE], !.live = [o \in Obj |-> FALSE],
             !.color = [o \in Obj |-> "W"], !.kind = [o \in Obj |-> "N"],
             !.strong = [o \in Obj |-> <<>>], !.weak = [o \in Obj |-> {}],
-            !.rootS = <<>>, !.rootW = {}, !.head = NoObj, !.next = [o \in Obj |-> NoObj],
+            !.rootS = <<>>, !.rootW = {}, !.rootD = <<>>, !.head = NoObj, !.next = [o \in Obj |-> NoObj],
+            !.slots = [o \in Obj |-> <<>>], !.freeHead = [o \in Obj |-> 0],
             !.sweep = NoObj, !.sweepPrev = NoObj, !.gray = <<>>, !.grayAgain = <<>>, !.rootNT = FALSE,
             !.mutSinceWake = FALSE, !.resurrected = {},
             !.mt = [alloc |-> 0, marked |-> 0, traced |-> 0, remembered |-> 0, dropped |-> 0, freed |-> 0,
@@ -475,6 +491,56 @@ WLink(s, p, t, path)        == Mut(WStore(s, p, t, path))
 WUnlink(s, p, t, path)      == Mut(WRemove(s, p, t, path))
 RootWAdd(s, t)              == Mut([RootBarrier(s) EXCEPT !.rootW = @ \cup {t}])
 RootWRemove(s, t)           == Mut([RootBarrier(s) EXCEPT !.rootW = @ \ {t}])
+-----------------------------------------------------------------------------
+(***************************************************************************)
+(* DynamicRootSet (src/dynamic_roots.rs).  The strong children of a set    *)
+(* object are DERIVED: the objects of its occupied slots, in index order   *)
+(* (Inner::trace -> Slots::trace -> Vec<Slot>::trace).                     *)
+(***************************************************************************)
+VacantSlot(nf) == [occ |-> FALSE, obj |-> NoObj, rc |-> 0, nf |-> nf]
+DerivedKids(sl) == LET occ == SelectSeq(sl, LAMBDA x : x.occ) IN [i \in DOMAIN occ |-> occ[i].obj]
+WithSlots(s, d, sl, fh) == [s EXCEPT !.slots[d] = sl, !.freeHead[d] = fh, !.strong[d] = DerivedKids(sl)]
+
+\* does the handle still refer to a live set (its Weak<..> upgrades)?
+HandleValid(s, hd) == hd.set # NoObj /\ s.live[hd.set] /\ s.kind[hd.set] = "D" /\ s.gen[hd.set] = hd.gen
+
+\* DynamicRootSet::new + storing it in the root (mutate_root)
+NewSet(s, o) ==
+  LET s1 == Alloc(s, o, "D") IN
+  Mut([RootBarrier(s1) EXCEPT !.rootD = Append(@, o), !.gen[o] = s.nextGen, !.nextGen = @ + 1,
+                              !.slots[o] = <<>>, !.freeHead[o] = 0])
+RemoveSet(s, d) == Mut([RootBarrier(s) EXCEPT !.rootD = SeqRemove(@, d)])
+
+\* DynamicRootSet::stash: backward_barrier(set, Some(root)); Slots::add (refcount starts at 0)
+Stash(s, d, c, hid) ==
+  LET sb  == Backward(s, d, c)
+      sl  == sb.slots[d]
+      fh  == sb.freeHead[d]
+      new == [occ |-> TRUE, obj |-> c, rc |-> 0, nf |-> 0]
+      idx == IF fh # 0 THEN fh ELSE Len(sl) + 1
+      sl2 == IF fh # 0 THEN [sl EXCEPT ![fh] = new] ELSE Append(sl, new)
+      fh2 == IF fh # 0 THEN sl[fh].nf ELSE 0
+  IN Mut([WithSlots(sb, d, sl2, fh2) EXCEPT !.handles[hid] = [set |-> d, gen |-> s.gen[d], idx |-> idx, obj |-> c]])
+
+\* Clone for DynamicRoot: Slots::inc if the set still exists
+CloneHandle(s, hid, hid2) ==
+  LET hd == s.handles[hid]
+      s1 == [s EXCEPT !.handles[hid2] = hd] IN
+  IF HandleValid(s, hd) THEN [s1 EXCEPT !.slots[hd.set][hd.idx].rc = @ + 1] ELSE s1
+
+\* Drop for DynamicRoot: Slots::dec if the set still exists; the last handle vacates the slot
+DropHandle(s, hid) ==
+  LET hd == s.handles[hid]
+      s1 == [s EXCEPT !.handles[hid] = NoHandle] IN
+  IF ~HandleValid(s, hd) THEN s1
+  ELSE LET sl == s.slots[hd.set] IN
+       IF sl[hd.idx].rc = 0
+       THEN Mut(WithSlots(s1, hd.set, [sl EXCEPT ![hd.idx] = VacantSlot(s.freeHead[hd.set])], hd.idx))  \* the graph loses an edge
+       ELSE [s1 EXCEPT !.slots[hd.set][hd.idx].rc = @ - 1]
+
+\* what fetch / try_fetch / contains answer for handle hd presented to set d
+FetchOk(s, d, hd) == HandleValid(s, hd) /\ hd.set = d
+
 \* a barrier with no adoption following it
 BarrierOnly(s, path, p, c)  == Mut(ApplyBarrier(s, path, p, c))
 \* upgrade the weak pointer to `t` and, if that succeeds, store the result in `p`
